@@ -350,17 +350,20 @@ func runThroughProxy(base string, s *mplexScn, total int) *sessionResult {
 		}
 		return sum
 	}
-	last, lastChange := progress(), time.Now()
+	last := progress()
+	var idle idleMeter
 wait:
 	for {
 		select {
 		case cerr = <-cdone:
 			break wait
-		case <-time.After(100 * time.Millisecond):
+		case <-time.After(idleTick):
+			quiet := idle.sample()
 			if p := progress(); p != last {
-				last, lastChange = p, time.Now()
-			} else if time.Since(lastChange) > 3*time.Second {
-				cerr = fmt.Errorf("HUNG: no transport progress for 3 s and the client did not return")
+				last = p
+				idle.n = 0
+			} else if quiet >= 3*time.Second {
+				cerr = fmt.Errorf("HUNG: no transport progress and every goroutine of the session parked for 3 s; the client did not return")
 				break wait
 			}
 		}
@@ -369,11 +372,11 @@ wait:
 	sA.Close()
 	select {
 	case <-sdone:
-	case <-time.After(5 * time.Second):
+	case <-idleAfter(5 * time.Second):
 	}
 	select {
 	case <-pdone:
-	case <-time.After(5 * time.Second):
+	case <-idleAfter(5 * time.Second):
 	}
 	res.ok = cerr == nil
 	if cerr != nil {
